@@ -608,3 +608,22 @@ _extend("C15",
           "Scopes.redeclaration_errors_iff_early_error for non-flat programs: stated in Props/C15Redecl.lean under moduleFnVarClash = false, argumentsClashL = false, catchFnClashL [] = false (each forced by a program with an early error that esbuild accepts: observations, esbuild's output is valid); direction error -> early error proved for every program, iff proved for flat programs"],
     scope="internal/js_parser/js_parser.go: pushScopeForParsePass / popScope, declareSymbol + canMergeSymbols (whole table, non-TS), the arguments step of parseFn, the use-strict and class strictness steps, prepareForVisitPass (ESM strictness, hoistSymbols in full incl. sloppy block functions and the CommonJS symbols), pushScopeForVisitPass, findSymbol (with / eval flags, unbound symbols), the class name scope + lowerClass inner-name merge, the block-function relinking of visitStmts, labels — against Spec/JsScopes.lean (VarDeclaredNames / LexicallyDeclaredNames / early errors / Annex B.3.2-B.3.4 / ResolveBinding). The kernel compares the whole scope tree, symbol table (kind, name, link, MustNotBeRenamed), reference list and sorted error list, on generated source text through js_parser.Parse, on raw operation sequences and on the full canMergeSymbols table",
     assumptions=["scope: one file, no TypeScript, no JSX; names are small integers; errors compared as a sorted multiset; use counts enter only through `the inner class name is referenced`; dead-code elimination that drops references is avoided by the generator; Spec early errors validated against Node 20 by the package author (4523/4523); flat = var/function declarations only at the top level of a function/script/module, no class declaration, nothing declares `arguments`"])
+
+# jsonrt (C13 / C01 / C16): the JSON parser and the lexer's JSON mode
+_JSON_SCOPE = ("internal/js_parser/json_parser.go: parseExpr, parseMaybeTrailingComma, ParseJSON (both flavours, the ObjectExtensions/__proto__ flag, duplicate-key warnings) modelled in full; internal/js_lexer/js_lexer.go in JSON mode: NewLexerJSON, Next (all token cases reachable in JSON mode, white space, comments and their JSON errors), the string scanner, StringLiteral + tryToDecodeEscapeSequences, scanIdentifierWithEscapes, parseNumericLiteralOrDot through the LexNum model plus the JSON number check, LexerPanic recovery — against Spec/Json.lean (RFC 8259 + ECMA-262 JSON.parse value semantics); an end-to-end op imports api.Transform(loader json, format esm) in Node and compares with JSON.parse")
+_JSON_ASSUME = ["jsonrt: Json.ParamsOK (the LexNum.ParamsOK contract on strconv.ParseFloat / integer conversions; no ECMAScript white-space code point is ID_Start or ID_Continue; IsIdentifierStart/Continue beyond ASCII are parameters instantiated on a menu of 8 code points); a text is a list of Unicode scalar values (invalid UTF-8 is checked by correspondence only); Spec/Json.lean is the package author's reading of RFC 8259 / ECMA-404 with JSON.parse value semantics; Node 20's JSON.parse is the oracle of the end-to-end op"]
+_extend("C13",
+    lean_modules=["EsbuildModel.Props.C13Json"],
+    theorems=_thms("C13Json", "json_accepts_iff_valid_partial json_accepts_rfc8259 tsconfig_accepts_iff tsconfig_accepts_strict toy_ok"),
+    kernels=[("jsonrt", 6000, 100000)],
+    open=["C13Json.json_accepts_iff_valid (the strict flavour accepts exactly RFC 8259): FALSE of the code — it also accepts (1) VT, FF, NBSP, BOM, LS, PS, Zs white space between tokens, (2) HTML-like comments `<!--` and `-->` (warning only), (3) integer parts 08.. / 09.., (4) escapes \\8 \\9; every accepted text still yields valid output, so this is an observation (esbuild is more permissive than JSON.parse), not a violation of the property; proved instead: json_accepts_iff_valid_partial (accepts exactly the dialect esbuildStrict) and json_accepts_rfc8259"],
+    scope=_JSON_SCOPE, assumptions=_JSON_ASSUME)
+_extend("C01",
+    lean_modules=["EsbuildModel.Props.C01Json"],
+    theorems=_thms("C01Json", "json_value json_value_rfc json_value_unique tsconfig_same_value_as_strict json_value_noproto_partial"),
+    kernels=[("jsonrt", 6000, 100000)],
+    open=["C01Json.json_value without objExt (target lacks computed keys, es5): FALSE of the code — a `__proto__` key is printed as a plain property and sets the prototype (known finding c01-json-proto-key-es5); proved instead: json_value_noproto_partial"])
+_extend("C16",
+    lean_modules=["EsbuildModel.Props.C16Json"],
+    theorems=_thms("C16Json", "json_total json_token_progress json_fuel_irrelevant"),
+    kernels=[("jsonrt", 6000, 100000)])
